@@ -11,6 +11,7 @@ import logging
 from datetime import datetime
 
 import dill
+import numpy as np
 
 from ..util.argument_validation import argument_validation
 from ..util.log import INFO, DETAILED_INFO
@@ -239,7 +240,11 @@ class EvolutionaryOptimizer(metaclass=ABCMeta):
     def _update_best_fitness(self):
         last_best_fitness = self._best_fitness
         self._best_fitness = self.get_best_fitness()
-        if last_best_fitness is None or self._best_fitness < last_best_fitness:
+        if (
+            last_best_fitness is None
+            or self._best_fitness < last_best_fitness
+            or (np.isnan(last_best_fitness) and not np.isnan(self._best_fitness))
+        ):
             self._fitness_improvement_age = self.generational_age
 
     def _update_checkpoints(self, checkpoint_base_name, num_checkpoints, reset=False):
